@@ -20,6 +20,13 @@ pub fn expand(input: &DeriveInput, trait_name: &'static str) -> Result<TokenStre
 
     let mut tokens = TokenStream::new();
 
+    // `&` binds tighter than `+`, so a trait object with several bounds has to be parenthesized
+    // before a reference to it can be spelled.
+    let field_type = match field_type {
+        syn::Type::TraitObject(obj) if obj.bounds.len() > 1 => quote! { (#field_type) },
+        _ => quote! { #field_type },
+    };
+
     for ref_type in info.ref_types() {
         let reference = ref_type.reference();
         let lifetime = ref_type.lifetime();
